@@ -58,7 +58,13 @@ const c07TextFam = gen.FAscii | gen.FHTML | gen.FMD | gen.FWide | gen.FNewline |
 const c07ValueFam = c07TextFam | gen.FSGR | gen.FNUL | gen.FInvalid | gen.FZero | gen.FCR
 
 func c07RandomItem(r *gen.R) c07Item {
-	switch r.Intn(24) {
+	switch r.Intn(25) {
+	case 24:
+		// comparable types whose value holds something unhashable
+		if r.Bool() {
+			return c07Item{Desc: "struct with an interface field holding a slice", item: gen.IfaceStruct{Kind: r.Word(), Payload: []string{"a", "b"}}}
+		}
+		return c07Item{Desc: "array of interfaces holding a slice", item: [2]interface{}{r.Word(), []int{1, 2}}}
 	case 23:
 		// encoding/json's own number type: a named string which encodes as the number literal it holds, and which the
 		// encoder refuses when it does not hold one
